@@ -129,6 +129,13 @@ check("C17", "exploration",
       "Trusted: closed-form partials of the polynomial family.",
       "property-based testing (Hypothesis) with closed-form oracles and a differential (checkpoint vs plain) oracle", "DESIGN.md C17")
 
+check("C18", "exploration",
+      "Cells (primitive family x shape x planted defect x defective rule x requested modes x order) x 100/300 seeded trials of "
+      "autograd.test_util.check_grads: correct primitives must never be rejected; for defect cells the miss count is tested against the "
+      "stated 0.99 rejection probability with an exact one-sided binomial tail at 1e-6.",
+      "Statistical decision rule (deterministic given the seeds); numpy.random's global generator is seeded per trial from the case and restored.",
+      "property-based testing (Hypothesis-generated cells) with a planted-defect oracle and a binomial decision rule", "DESIGN.md C18")
+
 NOT_YET = {}
 
 
